@@ -215,6 +215,7 @@ func (st *c16ScanState) report(what, op, buf string, pos int, impl, model string
 	key := what + "|" + op
 	if died {
 		st.nDied++
+		c.Count("scanner_server_died=" + op)
 	} else {
 		st.nDis++
 	}
@@ -356,6 +357,27 @@ func (st *c16ScanState) checkReinterp(l *c16Lane, body string) {
 	}
 }
 
+// the buffer of a scanner-correspondence replay file
+func c16ReplayBuf(path string) string {
+	var doc struct {
+		Replay struct {
+			BufHex string `json:"buf_hex"`
+		} `json:"replay"`
+	}
+	b, err := os.ReadFile(path)
+	if err != nil {
+		panic(err)
+	}
+	if err := jsonUnmarshal(b, &doc); err != nil {
+		panic(err)
+	}
+	d, err := hex.DecodeString(doc.Replay.BufHex)
+	if err != nil {
+		panic(err)
+	}
+	return string(d)
+}
+
 func c16Scanner(c *Ctx, rng *Rng, cases []c16Case) {
 	const nLanes = 4
 	st := &c16ScanState{c: c, lanes: make(chan *c16Lane, nLanes), mini: c.MiniFoi(c.Work), reported: map[string]bool{}}
@@ -396,6 +418,15 @@ func c16Scanner(c *Ctx, rng *Rng, cases []c16Case) {
 		kind     string
 	}
 	var jobs []job
+	replayBuf, hasReplayBuf := "", false
+	if c.Replay != "" {
+		for _, cs := range cases {
+			if cs.Kind == "scanner-replay" {
+				replayBuf, hasReplayBuf = cs.Src, true
+				jobs = append(jobs, job{cs.Src, true, "replay"})
+			}
+		}
+	}
 	for _, h := range c16ScanHazards {
 		jobs = append(jobs, job{h, true, "hazard"})
 	}
@@ -448,6 +479,9 @@ func c16Scanner(c *Ctx, rng *Rng, cases []c16Case) {
 
 	// ParseSInterP / reinterpretEscape on random bodies
 	var bodies []string
+	if hasReplayBuf {
+		bodies = append(bodies, replayBuf)
+	}
 	bodies = append(bodies, c16SInterpHazards...)
 	balpha := []string{"{", "{", "}", "}", "\\", "\\", "%", "a", "b", "x", " ", "\"", "n", "s", "d", ".", "\n", "$", "0"}
 	for i := 0; i < c.Pick(500, 30000); i++ {
